@@ -144,4 +144,9 @@ def run(ctx, b, broken):
         t, io, mo = min(climb_bad, key=lambda d: len(d[0]))
         broken.append({"kind": "correspondence", "name": "abstract climb (ClimbProofs.v) vs CParser._parse_binary_expression",
                        "input": t, "implementation": io, "model": mo, "count": len(climb_bad)})
+    # hand-written programs (rarely used productions): model and implementation must agree on each, tree and coordinates
+    for text, _valid in ZOO:
+        ctx.evaluations += 1
+        ctx.count("suite:zoo")
+        su.corr(text, impl_parse(text), tag="hand-written programs")
     su.finish()
